@@ -12,7 +12,8 @@ echo "|---|---|---|---|" >> $out.tmp
 fail=0
 for id in $ids; do
   [ -f seeded/$id/patch.diff ] && [ -f seeded/$id/meta.json ] || continue
-  chk=$(python3 -c "import json,re;m=json.load(open('/verif/seeded/$id/meta.json'));print(re.findall(r'C\d\d',m['caught_by'])[0])")
+  chk=$(python3 -c "import json,re;m=json.load(open('/verif/seeded/$id/meta.json'));c=m['caught_by'];print('' if c.startswith('not detected') else re.findall(r'C\d\d',c)[0])")
+  [ -z "$chk" ] && { echo "| $id | - | - | recorded as not detected (DESIGN.md section 13) |" >> $out.tmp; continue; }
   line=$(tools/try_seeded.sh $id $chk)
   rc=$(echo "$line" | sed -n 's/.*exit=\([0-9]*\).*/\1/p' | head -1)
   viol=$(echo "$line" | sed -n 's/.*violation class=\([^ ]*\) key=\([^ ]*\).*/\1 (\2)/p' | head -1)
